@@ -257,9 +257,21 @@ func (msg MsgFinalizeTokenDeposit) Validate(ac address.Codec) error {
 		return sdkerrors.ErrInvalidAddress.Wrap("from address cannot be empty")
 	}
 
+	// l1 never emits a deposit without a recipient, and the refund of a failed deposit names the
+	// recipient as its sender, which l1 requires to be non-empty
+	if len(msg.To) == 0 {
+		return sdkerrors.ErrInvalidAddress.Wrap("to address cannot be empty")
+	}
+
 	// allow zero amount
 	if !msg.Amount.IsValid() {
 		return ErrInvalidAmount
+	}
+
+	// l1 never emits a deposit above uint64, and the refund of one could never be claimed there:
+	// the withdrawal leaf format carries the amount as uint64
+	if !msg.Amount.Amount.IsUint64() {
+		return ErrInvalidAmount.Wrap("amount exceeds uint64")
 	}
 
 	if err := sdk.ValidateDenom(msg.BaseDenom); err != nil {
